@@ -246,6 +246,22 @@ def check_c03(tier, seed):
         ("clip[max-only,out]", lambda xp, a: xp.clip(a, None, 4, out=np.empty(a.shape, a.dtype)), y), ("clip[array-bounds,out]", lambda xp, a: xp.clip(a, np.full(a.shape[-1:], 1, a.dtype), 4, out=np.empty(a.shape, a.dtype)), y),
         ("sinc", lambda xp, a: xp.sinc(a), x), ("any", lambda xp, a: xp.any(a > 2, axis=0), y), ("argmax", lambda xp, a: xp.argmax(a, axis=1), y), ("argmin", lambda xp, a: xp.argmin(a), y),
     ]
+    # joining routines with operands of DIFFERENT dtypes, some of them empty: every operand takes part in NumPy's dtype promotion, also one that
+    # contributes no element
+    joins = [("concatenate", lambda xp, ops: xp.concatenate(ops, axis=0)), ("concatenate[axis=None]", lambda xp, ops: xp.concatenate(ops, axis=None)), ("stack", None), ("hstack-like", lambda xp, ops: xp.concatenate(ops, axis=-1))]
+    dt_pairs = [(np.float32, np.float64), (np.int16, np.float32), (np.bool_, np.int64), (np.float16, np.float64), (np.float64, np.float32), (np.int64, np.float16), (np.float32, np.float32)]
+    for jn, jf in joins:
+        if jf is None:
+            continue
+        for d1, d2 in dt_pairs:
+            for empties in ("second empty", "first empty", "none empty", "both empty"):
+                s1 = (0, 3) if empties in ("first empty", "both empty") else (2, 3)
+                s2 = (0, 3) if empties in ("second empty", "both empty") else (1, 3)
+                if jn == "hstack-like":
+                    s1, s2 = s1[::-1], s2[::-1]
+                    s1, s2 = (3, s1[1]), (3, s2[1])
+                o1, o2 = np.ones(s1, dtype=d1), np.ones(s2, dtype=d2) * 2
+                compare(f"{jn}[mixed dtypes,{empties}]", lambda: jf(mg, (mg.tensor(o1), mg.tensor(o2))), lambda: jf(np, (o1, o2)), dict(fn=jn, dtypes=[np.dtype(d1).name, np.dtype(d2).name], shapes=[list(s1), list(s2)], empties=empties))
     for nm, f, a in manip:
         compare(nm, lambda: f(mg, mg.tensor(a)), lambda: f(np, a), dict(fn=nm, operands=[describe(a)]))
         compare(nm + "[np-on-tensor]", lambda: f(np, mg.tensor(a)), lambda: f(np, a), dict(fn=nm, spelling="numpy function on tensor"))
@@ -488,6 +504,44 @@ def check_c10(tier, seed):
                         b.fail("C10.bounded.nonconstant_without_grad", d2, "the value written into a non-constant base received no gradient")
                     b.case(d2)
                 b.case(desc)
+    # inference with NON-tensor operands: Python / NumPy scalars, lists and arrays are constants -- the result is constant exactly when every
+    # TENSOR operand is constant (or the result is integer-valued), whatever the kinds of the operands and of the result; a constant result never
+    # acquires a gradient, as an intermediate neither
+    others = [("py-float", 2.5), ("py-int", 2), ("py-bool", True), ("np.float64", np.float64(2.5)), ("np.float32", np.float32(2.5)), ("np.int64", np.int64(2)), ("list", [1.5, 2.5, 3.5]), ("float-array", np.array([1.5, 2.5, 3.5])),
+              ("int-array", np.array([1, 2, 3])), ("0-d array", np.array(2.5))]
+    tens = [("int64 constant", lambda: mg.tensor([1, 2, 3])), ("bool constant", lambda: mg.tensor([True, False, True])), ("int8 constant", lambda: mg.tensor(np.array([1, 2, 3], dtype=np.int8))),
+            ("float constant", lambda: mg.tensor([1.0, 2.0, 3.0], constant=True)), ("float variable", lambda: mg.tensor([1.0, 2.0, 3.0]))]
+    binops = [("/", lambda p, q: p / q), ("*", lambda p, q: p * q), ("+", lambda p, q: p + q), ("-", lambda p, q: p - q), ("**", lambda p, q: p ** q), ("mg.add", lambda p, q: mg.add(p, q)), ("mg.true_divide", lambda p, q: mg.true_divide(p, q)),
+              ("mg.maximum", lambda p, q: mg.maximum(p, q)), ("mg.arctan2", lambda p, q: mg.arctan2(p, q))]
+    for tn, tf in tens:
+        for on_, ov in others:
+            for bn, bf in binops:
+                for side in ("tensor first", "tensor second"):
+                    t0 = tf()
+                    d5 = dict(family="inference with non-tensor operands", tensor=tn, other=on_, op=bn, order=side)
+                    b.count("flag inference with non-tensor operands")
+                    try:
+                        with np.errstate(all="ignore"):
+                            out = bf(t0, ov) if side == "tensor first" else bf(ov, t0)
+                    except Exception:
+                        continue  # NumPy / mygrad refuse the combination (e.g. bool - bool): not an inference case
+                    if not isinstance(out, Tensor):
+                        continue
+                    exp_const = t0.constant or np.issubdtype(out.dtype, np.integer) or out.dtype == np.bool_
+                    if out.constant is not bool(exp_const):
+                        b.fail("C10.bounded.inference", d5, f"result.constant = {out.constant}; the only tensor operand has constant = {t0.constant}, result dtype {out.dtype}")
+                        b.case(d5)
+                        continue
+                    if out.constant:
+                        w_ = mg.tensor([1.0, 1.0, 1.0])
+                        try:
+                            (w_ * out).sum().backward()
+                        except Exception as e:
+                            b.fail("C10.bounded.inference_raises", d5, f"{type(e).__name__}: {e}")
+                            continue
+                        if out.grad is not None or t0.grad is not None:
+                            b.fail("C10.bounded.nograd", d5, "a constant result (or its constant operand) acquired a gradient as an intermediate")
+                    b.case(d5)
     # conversions and copies: an explicit constant= always wins, None infers from the result's dtype (integers are constant) -- for every
     # combination of source flag, source dtype, target dtype, copy= and the routine used (astype, copy, astensor, tensor, Tensor)
     routines = [
@@ -1175,6 +1229,53 @@ def check_c18(tier, seed):
                             if not np.array_equal(t.data, d0, equal_nan=True) or (g0 is not None and not np.array_equal(t.grad, g0)) or (g0 is None and t.grad is not None) or (t.creator, t.base, t.constant, len(t._ops)) != fields0:
                                 b.fail("C18.bounded.save_alters_tensor", desc, "saving altered the tensor, its gradient or its graph fields")
                             b.case(desc)
+        # memory layouts and non-uniform gradients: Fortran-ordered / transposed / strided / axis-permuted data, gradients with distinct entries
+        # (also nan / inf), every float width: the loaded tensor has the saved values element by element, whatever layout the archive keeps
+        def layouts():
+            a = rng.uniform(-2, 2, size=(3, 4))
+            yield "C", a.copy()
+            yield "F", np.asfortranarray(a)
+            yield "transposed view", a.T
+            yield "strided view", a[:, ::2]
+            yield "reversed view", a[::-1]
+            a3 = rng.uniform(-2, 2, size=(2, 3, 4))
+            yield "axis-permuted 3-d", a3.transpose(1, 0, 2)
+            yield "F 3-d", np.asfortranarray(a3)
+            yield "column (n,1)", a[:, :1]
+
+        for ln, arr in layouts():
+            for dt in (np.float64, np.float32, np.float16):
+                for special in (False, True):
+                    for fk in ("path", "bytesio"):
+                        t = mg.tensor(arr.astype(dt), copy=False) if arr.dtype == dt else mg.tensor(arr.astype(dt, order="K"))
+                        Wt = (np.arange(1, t.size + 1, dtype=np.float64).reshape(t.shape) / 7.0).astype(dt)
+                        if special and t.size > 2:
+                            Wt.flat[0], Wt.flat[1] = np.nan, np.inf
+                        with np.errstate(all="ignore"):
+                            (t * Wt).sum().backward()
+                        d0, g0 = t.data.copy(), t.grad.copy()
+                        desc = dict(family="memory layout", layout=ln, dtype=np.dtype(dt).name, grad_has_nan_inf=special, file=fk, data_strides=list(t.data.strides), grad_strides=list(t.grad.strides))
+                        b.count("round trip")
+                        try:
+                            if fk == "path":
+                                pth = os.path.join(tmpdir, f"layout{n}.npz"); n += 1
+                                mg.save(pth, t)
+                                r = mg.load(pth)
+                            else:
+                                f = io.BytesIO()
+                                mg.save(f, t)
+                                f.seek(0)
+                                r = mg.load(f)
+                        except Exception as e:
+                            b.fail("C18.bounded.raises", desc, f"{type(e).__name__}: {e}")
+                            continue
+                        if not (r.dtype == t.dtype and r.shape == t.shape and np.array_equal(r.data, d0)):
+                            b.fail("C18.bounded.data", desc, "loaded data differs in value/shape/dtype")
+                        if r.grad is None or r.grad.dtype != g0.dtype or r.grad.shape != g0.shape or not np.array_equal(r.grad, g0, equal_nan=True):
+                            b.fail("C18.bounded.grad", desc, f"loaded gradient differs: {None if r.grad is None else r.grad.ravel()[:4].tolist()} vs saved {g0.ravel()[:4].tolist()}")
+                        if not np.array_equal(t.data, d0) or not np.array_equal(t.grad, g0, equal_nan=True):
+                            b.fail("C18.bounded.save_alters_tensor", desc, "saving altered the tensor or its gradient")
+                        b.case(desc)
         # how the file is addressed: str / pathlib.Path / os.PathLike x names with and without dots and suffixes.  The file numpy.savez
         # itself writes for that target is the specification: exactly that file appears (no other), both spellings address the same file,
         # and load() of it gives the tensor back; saving a second tensor under another name leaves the first file alone
